@@ -381,6 +381,7 @@ func main() {
 		scs = append(scs, scenario(cfg{SzxA: 0, SzxB: 0, Up: 33, Down: -1, Style: "write", CON: con, Two: true, Faults: ev.Pick(r, 0, 1), Preempt: ev.Pick(r, 1, 2)}))
 	}
 	scs = append(scs, scenario(cfg{SzxA: 0, SzxB: 0, Up: -1, Down: 33, Style: "do", CON: false, Two: true, Faults: ev.Pick(r, 1, 2), Preempt: ev.Pick(r, 0, 1)}))
+	addPeer(r, &scs)
 	addStream(r, &scs)
 	sum := mcx.Explore(r, scs, mcx.Config{Wall: ev.Pick(r, 4*time.Minute, 30*time.Minute)})
 	mcx.Report(r, scs, sum)
